@@ -333,13 +333,13 @@ def runOp (op : String) (a : List String) : Option String :=
     pure out
   | "env.new", [pl, t] => do
     let pl ← unhex pl; let t ← untape t
-    pure (match Envelope.newEnvelope pr nonceFuel pl t with
-      | some (sg, pk) =>
+    pure (match Envelope.newEnvelopeRaw pr nonceFuel pl t with
+      | some (pl', sg, pk) =>
         -- the envelope's own validity, and again after a JSON round trip of the envelope
-        -- (modelled as the identity on its string fields)
-        let v := match Envelope.isValid pr pl (some sg) (some pk) Envelope.mimeJSON with
+        -- (the identity on its string fields: they are valid UTF-8, `pl'` by sanitisation)
+        let v := match Envelope.isValid pr pl' (some sg) (some pk) Envelope.mimeJSON with
           | .valid => "1" | .invalid => "0" | .error => "e"
-        "ok " ++ hx sg ++ " " ++ hx pk ++ " " ++ v ++ " " ++ v
+        "ok " ++ hx sg ++ " " ++ hx pk ++ " " ++ v ++ " " ++ v ++ " P=" ++ hx pl' ++ " P2=" ++ hx pl'
       | none => "err")
   | "rng.key", [t] => do
     let t ← untape t
